@@ -15,7 +15,7 @@ import importlib
 import itertools
 import json
 
-from bitarray import bitarray
+from bitarray import bitarray, frozenbitarray
 from bitarray.util import ba2int
 
 from vp.core import Ctx, Fail, HarnessError, SubCheck, Tally, call
@@ -28,7 +28,12 @@ RULE = (
     "(config, length, contents, previous message) and GF(2)-linearity pairs; each case runs a freshly built bitwise and "
     "table calculator plus the class-level CALC singleton (reset to import-time state), each after a 'previous' message "
     "(none, random, or related: zero-extended inside the same octet, one bit shorter, last / first bit inverted) that "
-    "dirties the calculator.  Histories: Hypothesis-drawn sequences of 2..10 random / related messages through ONE "
+    "dirties the calculator; the bit sequence is handed over in rotating containers (big / little-endian bitarray, "
+    "frozenbitarray of either bit order for the bitwise register; big-endian bitarray / frozenbitarray for the table register "
+    "and the bit-level front ends; bytes / bytearray / memoryview for the octet front ends).  Streaming: the register "
+    "workflow init(); update() x n; digest() on Hypothesis-drawn chunk lists (empty, one-bit, chunks starting with 1..3 "
+    "whole feeds of zeros, a long message cut at random points, a second round on the same register) plus directed "
+    "loaded-register-then-z-zeros chunks for z = 0..3 feeds + 1, both register classes, all five configurations.  Histories: Hypothesis-drawn sequences of 2..10 random / related messages through ONE "
     "calculator or front end starting from freshly re-imported modules.  Front ends: Hypothesis-drawn bit strings 0..400 (CRC8, CRC9 x 3 masks), octet strings 0..64 (CRC16 x 5 "
     "masks, CRC32), CRC-9 parts (data 0..24 octets, serial 0..127, crc32 absent / int in [1,2^32) / 4 octets).  Acceptance: "
     "all 2^w check values for w<=16 on sampled messages, computed value +-1 and all single-bit neighbours elsewhere.  "
@@ -43,7 +48,10 @@ RULE = (
 )
 ASSUMPTIONS = [
     "bit strings are big-endian bitarrays (library default); little-endian arrays make the two register modes disagree and "
-    "are outside the claimed domain (DESIGN.md §4 C05 domain note)",
+    "are outside the claimed domain (DESIGN.md §4 C05 domain note); containers are only varied where the unchanged tree accepts "
+    "them and is right (probed 2026-09: bitwise register - any bit order, frozen or not; table register, CALC singletons, "
+    "CRC8, CRC9.calculate - big-endian bitarray / frozenbitarray; CRC16 / CRC32 / calculate_from_parts - bytes, bytearray, "
+    "memoryview); the expected value always comes from the bit sequence, never from the container",
     "reference = polynomial division over GF(2) (vp/refs/gf2.py) with generator polynomials, inversion rule, masks and "
     "octet-pair swap written from ETSI TS 102 361-1 annex B.3 (vp/refs/crc_ref.py), unit-checked against values captured "
     "from real radios",
@@ -184,32 +192,62 @@ def _neighbours(v, w):
     return sorted(({v ^ (1 << k) for k in range(w)} | {(v + 1) % (1 << w), (v - 1) % (1 << w)}) - {v})
 
 
+# ---------------------------------------------------------------------------------------------- containers (lesson A.1)
+
+BIT_REPS_ANY = ["big", "little", "frozen_big", "frozen_little"]  # accepted and right on the bitwise register
+BIT_REPS_TABLE = ["big", "frozen_big"]  # table register / singletons / CRC8 / CRC9.calculate (little endian: domain note)
+OCTET_REPS = ["bytes", "bytearray", "memoryview"]
+
+
+def make_bits(s, rep="big"):
+    """the bit SEQUENCE s in the given container; the expected CRC is always computed from s, never from the container"""
+    rep = rep or "big"
+    b = bitarray(s, endian="little" if rep.endswith("little") else "big")
+    return frozenbitarray(b) if rep.startswith("frozen") else b
+
+
+def table_rep(rep):
+    """the nearest container the table register is specified for (big-endian bit order)"""
+    rep = rep or "big"
+    return "frozen_big" if rep.startswith("frozen") else "big"
+
+
+def make_octets(hexstr, rep="bytes"):
+    raw = bytes.fromhex(hexstr)
+    rep = rep or "bytes"
+    return bytearray(raw) if rep == "bytearray" else memoryview(raw) if rep == "memoryview" else raw
+
+
+def _same_bits(arg, s, label, what="input_not_mutated"):
+    if arg.to01() != s:
+        raise Fail(what, arg.to01(), s, label)
+
+
 # ---------------------------------------------------------------------------------------------- engine oracles
 
 
 def oracle_engine(case):
-    """case = {cfg, bits: '0101…', prev: '01…'|None}: every calculator returns M(x)x^w mod G as a w-bit bitarray."""
+    """case = {cfg, bits: '0101…', prev: '01…'|None, rep: container}: every calculator returns M(x)x^w mod G as a w-bit bitarray."""
     cfg, s, prev = case["cfg"], case["bits"], case.get("prev")
     w = crc_ref.WIDTH[cfg]
     expected = crc_ref.rem(cfg, crc_ref.bits_of(s))
-    bits = bitarray(s)
     for label, calc in calculators(cfg):
+        rep = case.get("rep") if label == "bitwise" else table_rep(case.get("rep"))
         if prev is not None:
-            call(calc.calculate_checksum, bitarray(prev))
-        arg = bits.copy()
+            call(calc.calculate_checksum, make_bits(prev, rep))
+        arg = make_bits(s, rep)
         got = call(calc.calculate_checksum, arg)[1]
-        if arg != bits:
-            raise Fail("input_not_mutated", arg.to01(), bits.to01(), label)
+        _same_bits(arg, s, label)
         if not isinstance(got, bitarray) or len(got) != w:
             raise Fail("checksum_is_w_bits", repr(got), f"bitarray of {w} bits", label)
-        if ba2int(got) != expected:
+        if got.to01() != format(expected, f"0{w}b"):
             raise Fail("engine_equals_polynomial_remainder", got.to01(), format(expected, f"0{w}b"), label)
-        ok = call(calc.verify_checksum, bits.copy(), expected)[1]
+        ok = call(calc.verify_checksum, make_bits(s, rep), expected)[1]
         if ok is not True:
             raise Fail("verify_accepts_computed_value", ok, True, label)
         wrongs = _neighbours(expected, w) if case.get("neighbours") else [expected ^ (1 << (len(s) % w))]
         for wrong in wrongs:
-            ok = call(calc.verify_checksum, bits.copy(), wrong)[1]
+            ok = call(calc.verify_checksum, make_bits(s, rep), wrong)[1]
             if ok is not False:
                 raise Fail("verify_rejects_other_value", {"value": hex(wrong), "result": ok}, {"value": hex(wrong), "result": False}, label)
 
@@ -232,34 +270,44 @@ def _fe_call(fe, msg):
     if fe == "crc8":
         from okdmr.dmrlib.etsi.crc.crc8 import CRC8
 
-        arg = bitarray(msg["bits"])
-        keep = arg.copy()
+        arg = make_bits(msg["bits"], msg.get("rep"))
         v = call(CRC8.calculate, arg)[1]
-        if arg != keep:
-            raise Fail("input_not_mutated", arg.to01(), keep.to01(), fe)
+        _same_bits(arg, msg["bits"], fe)
         return v
     if fe == "crc9":
         from okdmr.dmrlib.etsi.crc.crc9 import CRC9
 
-        arg = bitarray(msg["bits"])
-        keep = arg.copy()
+        arg = make_bits(msg["bits"], msg.get("rep"))
         v = call(CRC9.calculate, arg, lib_mask(msg["mask"]))[1]
-        if arg != keep:
-            raise Fail("input_not_mutated", arg.to01(), keep.to01(), fe)
+        _same_bits(arg, msg["bits"], fe)
         return v
     if fe == "crc9_parts":
         from okdmr.dmrlib.etsi.crc.crc9 import CRC9
 
-        return call(CRC9.calculate_from_parts, bytes.fromhex(msg["data"]), msg["sn"], lib_mask(msg["mask"]), _crc32_arg(msg))[1]
+        arg = make_octets(msg["data"], msg.get("rep"))
+        v = call(CRC9.calculate_from_parts, arg, msg["sn"], lib_mask(msg["mask"]), _crc32_arg(msg))[1]
+        _same_octets(arg, msg["data"], fe)
+        return v
     if fe == "crc16":
         from okdmr.dmrlib.etsi.crc.crc16 import CRC16
 
-        return call(CRC16.calculate, bytes.fromhex(msg["data"]), lib_mask(msg["mask"]))[1]
+        arg = make_octets(msg["data"], msg.get("rep"))
+        v = call(CRC16.calculate, arg, lib_mask(msg["mask"]))[1]
+        _same_octets(arg, msg["data"], fe)
+        return v
     if fe == "crc32":
         from okdmr.dmrlib.etsi.crc.crc32 import CRC32
 
-        return call(CRC32.calculate, bytes.fromhex(msg["data"]))[1]
+        arg = make_octets(msg["data"], msg.get("rep"))
+        v = call(CRC32.calculate, arg)[1]
+        _same_octets(arg, msg["data"], fe)
+        return v
     raise HarnessError(f"unknown front end {fe}")
+
+
+def _same_octets(arg, hexstr, label):
+    if bytes(arg).hex() != hexstr:
+        raise Fail("input_not_mutated", bytes(arg).hex(), hexstr, label)
 
 
 def _crc32_arg(msg):
@@ -267,7 +315,7 @@ def _crc32_arg(msg):
     if c is None:
         return None
     if msg.get("crc32_as", "int") == "bytes":
-        return c.to_bytes(4, "big")
+        return make_octets(c.to_bytes(4, "big").hex(), msg.get("rep"))
     if c == 0:
         raise HarnessError("crc32 == 0 as int is the 'absent' sentinel and must not be generated")
     return c
@@ -277,21 +325,21 @@ def _fe_check(fe, msg, value):
     if fe == "crc8":
         from okdmr.dmrlib.etsi.crc.crc8 import CRC8
 
-        return call(CRC8.check, bitarray(msg["bits"]), value)[1]
+        return call(CRC8.check, make_bits(msg["bits"], msg.get("rep")), value)[1]
     if fe in ("crc9", "crc9_parts"):
         from okdmr.dmrlib.etsi.crc.crc9 import CRC9
 
         if fe == "crc9":
             return None  # CRC9.check exists for the parts form only
-        return call(CRC9.check, bytes.fromhex(msg["data"]), msg["sn"], value, lib_mask(msg["mask"]), _crc32_arg(msg))[1]
+        return call(CRC9.check, make_octets(msg["data"], msg.get("rep")), msg["sn"], value, lib_mask(msg["mask"]), _crc32_arg(msg))[1]
     if fe == "crc16":
         from okdmr.dmrlib.etsi.crc.crc16 import CRC16
 
-        return call(CRC16.check, bytes.fromhex(msg["data"]), value, lib_mask(msg["mask"]))[1]
+        return call(CRC16.check, make_octets(msg["data"], msg.get("rep")), value, lib_mask(msg["mask"]))[1]
     if fe == "crc32":
         from okdmr.dmrlib.etsi.crc.crc32 import CRC32
 
-        return call(CRC32.check, bytes.fromhex(msg["data"]), value)[1]
+        return call(CRC32.check, make_octets(msg["data"], msg.get("rep")), value)[1]
     raise HarnessError(f"unknown front end {fe}")
 
 
@@ -430,6 +478,43 @@ def oracle_extreme(case):
     if not _reference_applies(fe, msg) or fe_expected(fe, msg) != want:
         raise HarnessError(f"construction failed: reference CRC is not {hex(want)} for {case}")
     oracle_front({"fe": fe, "msg": msg, "prev": case.get("prev"), "values": "neighbours"})
+
+
+# ---------------------------------------------------------------------------------------------- streaming interface (lesson A.5)
+
+
+def oracle_streaming(case):
+    """case = {cfg, mode: bitwise|table, rounds: [[chunk, …], …], rep}: the documented register workflow init(); update() 1..n
+    times; digest() on ONE register object, once per round.  After every update() the returned register is the remainder
+    of all bits fed so far in this round, digest() is the remainder of the concatenation (= what the one-shot calculator
+    returns for it), whatever the split points - chunks may be empty, one bit long, or start with whole feeds of zeros."""
+    cfg, mode = case["cfg"], case["mode"]
+    w = crc_ref.WIDTH[cfg]
+    restore_cached_table(cfg)
+    m = _lib()
+    reg = call(m.TableBasedBitCrcRegister if mode == "table" else m.BitCrcRegister, lib_cfg(cfg))[1]
+    rep = case.get("rep") if mode == "bitwise" else table_rep(case.get("rep"))
+    for rnd, chunks in enumerate(case["rounds"]):
+        call(reg.init)
+        sofar = ""
+        for k, ch in enumerate(chunks):
+            arg = make_bits(ch, rep)
+            ret = call(reg.update, arg)[1]
+            _same_bits(arg, ch, mode)
+            sofar += ch
+            exp = format(crc_ref.rem(cfg, crc_ref.bits_of(sofar)), f"0{w}b")
+            if not isinstance(ret, bitarray) or ret.to01() != exp:
+                raise Fail("update_returns_remainder_of_bits_fed_so_far", {"round": rnd, "chunk": k, "register": ret.to01() if isinstance(ret, bitarray) else repr(ret)},
+                           {"round": rnd, "chunk": k, "register": exp}, mode)
+        exp = format(crc_ref.rem(cfg, crc_ref.bits_of(sofar)), f"0{w}b")
+        for again in (0, 1):
+            dig = call(reg.digest)[1]
+            if not isinstance(dig, bitarray) or dig.to01() != exp:
+                raise Fail("streamed_digest_equals_polynomial_remainder", {"round": rnd, "digest_call": again, "digest": dig.to01() if isinstance(dig, bitarray) else repr(dig)},
+                           {"round": rnd, "digest_call": again, "digest": exp}, mode)
+        one_shot = call(call(m.BitCrcCalculator, lib_cfg(cfg), table_based=(mode == "table"))[1].calculate_checksum, make_bits(sofar, rep))[1]
+        if one_shot.to01() != exp:
+            raise Fail("engine_equals_polynomial_remainder", one_shot.to01(), exp, mode)
 
 
 # ---------------------------------------------------------------------------------------------- histories
@@ -597,9 +682,10 @@ def drv_engine_lengths(ctx: Ctx, sub: SubCheck):
             for i, s in enumerate(contents):
                 kind = (i + L) % 6
                 prev = _rand_bits(rng, rng.randrange(1, 41)) if kind == 1 else _related_bits(s, kind)
-                case = {"cfg": cfg, "bits": s, "prev": prev}
+                case = {"cfg": cfg, "bits": s, "prev": prev, "rep": BIT_REPS_ANY[(i + L // 6) % 4]}
                 ctx.run_case(sub.name, oracle_engine, case, t)
                 t.case(sub.name, nontrivial=_nt_bits(cfg, s), cls=f"{cfg}:{_cls_len(cfg, L)}")
+                t.cls(sub.name, "container:" + case["rep"])
             if L % 97 == 5:
                 t.sample(sub.name, case)
 
@@ -703,7 +789,7 @@ def _related_msg(fe, msg, kind):
 def drv_engine_random(ctx: Ctx, sub: SubCheck):
     st = _st()
     prev = st.one_of(st.none(), st_bits(1, 40), st.integers(2, 5))
-    strat = st.builds(lambda c, b, p: {"cfg": c, "bits": b, "prev": _related_bits(b, p) if isinstance(p, int) else p}, st.sampled_from(CFGS), st_bits(), prev)
+    strat = st.builds(lambda c, b, p, r: {"cfg": c, "bits": b, "prev": _related_bits(b, p) if isinstance(p, int) else p, "rep": r}, st.sampled_from(CFGS), st_bits(), prev, st.sampled_from(BIT_REPS_ANY))
     _hyp(ctx, sub, strat, oracle_engine, 60, 1500,
          lambda c, t: t.case(sub.name, key=c, nontrivial=_nt_bits(c["cfg"], c["bits"]), cls=f"{c['cfg']}:{_cls_len(c['cfg'], len(c['bits']))}"))
 
@@ -777,8 +863,10 @@ def make_front_driver(fe, nq, nt):
     def drv(ctx: Ctx, sub: SubCheck):
         st = _st()
         m = st_front_msg(fe)
-        strat = st.builds(lambda a, p: {"fe": fe, "msg": a, "prev": _related_msg(fe, a, p) if isinstance(p, int) else p}, m, st.one_of(st.none(), m, st.integers(2, 5)))
-        _hyp(ctx, sub, strat, oracle_front, nq, nt, lambda c, t: t.case(sub.name, key=c, nontrivial=_front_nt(fe, c["msg"]), cls=_front_cls(fe, c["msg"])))
+        reps = BIT_REPS_TABLE if fe in ("crc8", "crc9") else OCTET_REPS
+        mr = st.builds(lambda a, r: dict(a, rep=r), m, st.sampled_from(reps))
+        strat = st.builds(lambda a, p: {"fe": fe, "msg": a, "prev": _related_msg(fe, a, p) if isinstance(p, int) else p}, mr, st.one_of(st.none(), mr, st.integers(2, 5)))
+        _hyp(ctx, sub, strat, oracle_front, nq, nt, lambda c, t: (t.case(sub.name, key=c, nontrivial=_front_nt(fe, c["msg"]), cls=_front_cls(fe, c["msg"])), t.cls(sub.name, "container:" + c["msg"].get("rep", "default"))))
 
     return drv
 
@@ -1097,12 +1185,93 @@ def drv_extreme(ctx: Ctx, sub: SubCheck):
     ctx.tally.notes.append("extreme_outputs: every shape x each of the 6 edge values of the output range; messages constructed by GF(2) elimination on the reference, construction asserted on the reference")
 
 
+def _stream_cls(c):
+    f = feed(c["cfg"])
+    out = set()
+    for chunks in c["rounds"]:
+        loaded = False
+        for ch in chunks:
+            if ch == "":
+                out.add("has_empty_chunk")
+            if len(ch) == 1:
+                out.add("has_one_bit_chunk")
+            if loaded and len(ch) >= f and "1" not in ch[:f]:
+                out.add("later_chunk_starts_with_whole_zero_feed_on_loaded_register")
+            if len(ch) % f:
+                out.add("chunk_not_multiple_of_feed")
+            loaded = loaded or "1" in ch
+    if len(c["rounds"]) > 1:
+        out.add("register_reused_after_init")
+    return sorted(out)
+
+
+def st_stream():
+    st = _st()
+
+    @st.composite
+    def chunk(draw, f):
+        kind = draw(st.integers(0, 9))
+        if kind == 0:
+            return ""
+        if kind == 1:
+            return draw(st.sampled_from(["0", "1"]))
+        if kind in (2, 3, 4):  # whole feeds of zeros (and a bit more) first, then anything
+            z = f * draw(st.integers(1, 3)) + draw(st.integers(0, f - 1))
+            return "0" * z + draw(st_bits(0, 30))
+        if kind == 5:
+            return "0" * (f * draw(st.integers(1, 4)))
+        return draw(st_bits(1, 70))
+
+    @st.composite
+    def stream(draw):
+        cfg = draw(st.sampled_from(CFGS))
+        f = feed(cfg)
+        mode = draw(st.sampled_from(["bitwise", "table"]))
+        rounds = [[draw(chunk(f)) for _ in range(draw(st.integers(1, 6)))] for _ in range(draw(st.sampled_from([1, 1, 2])))]
+        if draw(st.booleans()):  # the same long message cut at random points (incl. equal points = empty chunks)
+            msg = draw(st_bits(1, 400))
+            cuts = sorted(draw(st.lists(st.integers(0, len(msg)), min_size=1, max_size=6)))
+            rounds.append([msg[a:b] for a, b in zip([0] + cuts, cuts + [len(msg)])])
+        return {"cfg": cfg, "mode": mode, "rounds": rounds, "rep": draw(st.sampled_from(BIT_REPS_ANY))}
+
+    return stream()
+
+
+def drv_streaming(ctx: Ctx, sub: SubCheck):
+    def rec(c, t):
+        cl = _stream_cls(c)
+        t.case(sub.name, key=c, nontrivial=sum(1 for r in c["rounds"] for ch in r if ch) >= 2, cls=f"{c['cfg']}:{c['mode']}")
+        for x in cl:
+            t.cls(sub.name, x)
+        t.cls(sub.name, "container:" + c["rep"])
+
+    _hyp(ctx, sub, st_stream(), oracle_streaming, 60, 1200, rec)
+    # directed: a loaded register, then a chunk of z zeros (z = 0 .. 3 feeds + 1) and a closing 1; an empty chunk in between
+    items = [(cfg, mode) for cfg in CFGS for mode in ("bitwise", "table")]
+
+    def work(it, t: Tally):
+        cfg, mode = it
+        f = feed(cfg)
+        rng = ctx.rng("streaming", cfg, mode)
+        head = "1" + _rand_bits(rng, rng.randrange(0, 2 * f))
+        for z in range(0, 3 * f + 2):
+            for mid in ([], [""]):
+                case = {"cfg": cfg, "mode": mode, "rounds": [[head] + mid + ["0" * z + "1"], [head, "0" * z]], "rep": BIT_REPS_ANY[z % 4]}
+                ctx.run_case(sub.name, oracle_streaming, case, t)
+                t.case(sub.name, key=case, nontrivial=True, cls=f"{cfg}:{mode}")
+                for x in _stream_cls(case):
+                    t.cls(sub.name, x)
+
+    ctx.shards(work, items)
+
+
 SUBCHECKS = [
     SubCheck("captured_vectors", oracle_captured, drv_captured, "reference and library agree with CRC values captured from real radios"),
     SubCheck("extreme_outputs", oracle_extreme, drv_extreme, "messages constructed so that the CRC is 0 / all ones / 1 / top bit only / all ones - 1 / top bit clear, for every engine config and front end: value, modes, check incl. wrap-around neighbours"),
     SubCheck("engine_every_length", oracle_engine, drv_engine_lengths, "5 configs x every length 0..400 x {0s, 1s, random}: all calculators == M(x)x^w mod G"),
     SubCheck("engine_unit_vectors", oracle_engine, drv_engine_units, "all unit vectors of 7 lengths per config (with linearity: every message)"),
     SubCheck("engine_random", oracle_engine, drv_engine_random, "Hypothesis: (config, length 0..400, contents, previous message)"),
+    SubCheck("streaming", oracle_streaming, drv_streaming, "register workflow init(); update() x n; digest() with arbitrary split points (empty, 1-bit, zero-feed-leading chunks), both register classes: every intermediate register and the digest == remainder"),
     SubCheck("history", oracle_history, drv_history, "sequences of (related) messages through ONE calculator / front-end singleton from import-time state: each result is that message's own CRC"),
     SubCheck("engine_linearity", oracle_linearity, drv_linearity, "Hypothesis: crc(a^b) == crc(a)^crc(b), both register modes"),
     SubCheck("front_crc8", oracle_front, make_front_driver("crc8", 50, 1200), "CRC8.calculate/check == plain remainder"),
